@@ -8,7 +8,7 @@ import (
 // TestC18 attaches a stats tracker to backend workloads and compares totals at quiescence.
 func TestC18(t *testing.T) {
 	e := LoadEnv("C18")
-	cf := NewCaseFile("C18", "From Cache Require Import Base Backend Spec Check.", "check_c18")
+	cf := NewCaseFile("C18", "From Cache Require Import Base Backend Spec Failover FailoverRun Check.", "check_c18")
 	cf.Rule = "backend part: the C07 generator (all op kinds, SkipRead, TTL classes, 7 configs, 3 backends) with a counting StatsTracker; " +
 		"Len is read right before every ExpireAll/DeleteAll to know the entries touched; failover part: see TestC18Failover; " +
 		"non-trivial = at least one hit, one miss, one expired read, one successful delete and one batch op; distinct = distinct Gallina term"
